@@ -59,3 +59,29 @@ Proof.
   - clear H2. apply sl_eqb_eq. exact H1.
   - intros f evs Hin. rewrite forallb_forall in H2. apply atomic_ok_sound. apply (H2 _ Hin).
 Qed.
+
+Lemma member_walk_covers : forall evs hg, member_walk evs hg = true ->
+  forall pre post, evs = (pre ++ GMemberCall :: post)%list -> grp_held pre hg = false.
+Proof.
+  induction evs as [|e r IH]; intros hg H pre post Heq.
+  - destruct pre; discriminate.
+  - destruct pre as [|x pre]; simpl in Heq; inversion Heq; subst.
+    + simpl in *. destruct hg; [discriminate|reflexivity].
+    + simpl in H. destruct x; simpl;
+        repeat match type of H with
+               | (if ?c then _ else _) = _ => destruct c eqn:?
+               end; try discriminate;
+        try (eapply IH; [exact H|reflexivity]).
+      apply andb_prop in H. destruct H as [_ H]. eapply IH; [exact H|reflexivity].
+Qed.
+
+(* every call of a member's CreateConnFn happens while the group's mutex is NOT held *)
+Theorem member_calls_ok_sound : forall facts, member_calls_ok facts = true ->
+  map fst facts = expected_member_functions /\
+  forall f evs, In (f, evs) facts ->
+    forall pre post, evs = (pre ++ GMemberCall :: post)%list -> grp_held pre false = false.
+Proof.
+  intros facts H. unfold member_calls_ok in H. apply andb_prop in H. destruct H as [H _].
+  apply andb_prop in H. destruct H as [H1 H2]. split; [apply sl_eqb_eq; exact H1|].
+  intros f evs Hin pre post Heq. rewrite forallb_forall in H2. eapply member_walk_covers; [apply (H2 _ Hin)|exact Heq].
+Qed.
